@@ -224,11 +224,21 @@ OptOrder(ord, unv, i) ==
 Order == IF opt THEN OptOrder(<<0>>, Ids \ {0}, 1) ELSE SortedIds
 
 Lab(id) == IF id = 0 THEN name ELSE name \o "_" \o ToString(id)
-Ins(toks) == [k |-> "ins", toks |-> toks]
-LabelLine(n, g) == [k |-> "label", name |-> n, g |-> g]
-Goto(id) == Ins(<<"goto", Lab(id)>>)
+(* A line carries its tokens (compared with the real output by LoweringConform) and the  *)
+(* structure ScriptVM reads (op, operands a, jump target tgt, gen = compiler-made jump,  *)
+(* role of a label), used by LoweringRefine.                                            *)
+InsX(toks, a, tgt, gen) == [k |-> "ins", toks |-> toks, op |-> toks[1], a |-> a, tgt |-> tgt, gen |-> gen]
+Ins(toks) == InsX(toks, <<>>, "", FALSE)
+LabelLine(n, g, role) == [k |-> "label", name |-> n, g |-> g, role |-> role]
+Goto(id) == InsX(<<"goto", Lab(id)>>, <<Lab(id)>>, Lab(id), TRUE)
 
-StmtLine(n) == IF P.N[n].k = "label" THEN LabelLine(P.N[n].name, P.N[n].g) ELSE Ins(P.N[n].toks)
+RECURSIVE JoinToks(_)
+JoinToks(ts) == IF ts = <<>> THEN "" ELSE IF Len(ts) = 1 THEN ts[1] ELSE ts[1] \o " " \o JoinToks(Tail(ts))
+
+StmtLine(n) ==
+    IF P.N[n].k = "label" THEN LabelLine(P.N[n].name, P.N[n].g, "user")
+    ELSE LET t == P.N[n].toks IN
+         IF t[1] = "goto" /\ Len(t) = 2 THEN InsX(t, <<t[2]>>, t[2], FALSE) ELSE Ins(t)
 
 CondOp(op) == CASE op = "==" -> "goto_if_eq" [] op = "!=" -> "goto_if_ne" [] op = "<" -> "goto_if_lt"
                 [] op = "<=" -> "goto_if_le" [] op = ">" -> "goto_if_gt" [] op = ">=" -> "goto_if_ge"
@@ -237,12 +247,15 @@ LeafLines(e, dest) ==
     LET x == P.E[e]
         pre == IF x.typ = "auto" THEN <<Ins(x.toks)>> ELSE <<>>
         setLike == (x.op = "==" /\ x.val \in {"TRUE", "true"}) \/ (x.op = "!=" /\ x.val \in {"FALSE", "false"})
+        opnd == JoinToks(x.opndtoks)
+        L == Lab(dest)
     IN pre \o
-       (CASE x.typ = "flag" -> <<Ins(<<IF setLike THEN "goto_if_set" ELSE "goto_if_unset">> \o x.opndtoks \o <<",", Lab(dest)>>)>>
-          [] x.typ = "defeated" -> <<Ins(<<"checktrainerflag">> \o x.opndtoks),
-                                     Ins(<<"goto_if", IF setLike THEN "1" ELSE "0", ",", Lab(dest)>>)>>
-          [] OTHER -> <<Ins(<<IF x.strict THEN "compare_var_to_value" ELSE "compare">> \o x.opndtoks \o <<",">> \o x.rawvaltoks),
-                        Ins(<<CondOp(x.op), Lab(dest)>>)>>)
+       (CASE x.typ = "flag" -> <<InsX(<<IF setLike THEN "goto_if_set" ELSE "goto_if_unset">> \o x.opndtoks \o <<",", L>>, <<opnd, L>>, L, TRUE)>>
+          [] x.typ = "defeated" -> <<InsX(<<"checktrainerflag">> \o x.opndtoks, <<opnd>>, "", FALSE),
+                                     InsX(<<"goto_if", IF setLike THEN "1" ELSE "0", ",", L>>, <<IF setLike THEN "1" ELSE "0", L>>, L, TRUE)>>
+          [] OTHER -> <<InsX(<<IF x.strict THEN "compare_var_to_value" ELSE "compare">> \o x.opndtoks \o <<",">> \o x.rawvaltoks,
+                             <<opnd, JoinToks(x.rawvaltoks)>>, "", FALSE),
+                        InsX(<<CondOp(x.op), L>>, <<L>>, L, TRUE)>>)
 
 (* lines of one chunk's branching and the chunks it jumps to: [lines, jumps] *)
 Branching(ch, next) ==
@@ -258,8 +271,10 @@ Branching(ch, next) ==
          [] ch.br.t = "leaf" -> (LET f == FallOrGoto(ch.br.fail) IN
                                  [lines |-> LeafLines(ch.br.e, ch.br.dest) \o f.lines, jumps |-> {ch.br.dest} \cup f.jumps])
          [] ch.br.t = "switch" ->
-              (LET hd == <<Ins(<<"switch">> \o ch.br.opndtoks)>>
-                        \o [k \in 1..Len(ch.br.cases) |-> Ins(<<"case">> \o ch.br.cases[k].valtoks \o <<",", Lab(ch.br.cases[k].dest)>>)]
+              (LET hd == <<InsX(<<"switch">> \o ch.br.opndtoks, <<JoinToks(ch.br.opndtoks)>>, "", FALSE)>>
+                        \o [k \in 1..Len(ch.br.cases) |->
+                              InsX(<<"case">> \o ch.br.cases[k].valtoks \o <<",", Lab(ch.br.cases[k].dest)>>,
+                                   <<JoinToks(ch.br.cases[k].valtoks), Lab(ch.br.cases[k].dest)>>, Lab(ch.br.cases[k].dest), TRUE)]
                    cj == {ch.br.cases[k].dest : k \in 1..Len(ch.br.cases)}
                    tl == IF ch.br.def # -2
                          THEN (IF ch.br.def # next THEN [lines |-> <<Goto(ch.br.def)>>, jumps |-> {ch.br.def}] ELSE [lines |-> <<>>, jumps |-> {}])
@@ -290,7 +305,8 @@ StartLabels ==
 RenderLabel ==
     /\ phase = "labels" /\ ri <= Len(order)
     /\ LET id == order[ri] IN
-       asm' = asm \o (IF id = 0 \/ id \in jumped THEN <<LabelLine(Lab(id), id = 0 /\ glob)>> ELSE <<>>) \o bodies[ri]
+       asm' = asm \o (IF id = 0 \/ id \in jumped
+                       THEN <<LabelLine(Lab(id), id = 0 /\ glob, IF id = 0 THEN "entry" ELSE "sub")>> ELSE <<>>) \o bodies[ri]
     /\ ri' = ri + 1
     /\ UNCHANGED <<P, name, glob, opt, rem, fin, cnt, bret, borg, phase, order, bodies, jumped>>
 
